@@ -432,6 +432,6 @@ func init() {
 	register(&Check{Prop: "C19", Level: "exploration",
 		Rule:   "apps/v1 StatefulSets generated by gofuzz with apimachinery's meta fuzzer functions plus custom functions (Quantity, IntOrString, Time, nil vs empty collections, every optional pointer nil/non-nil, defaulted and undefaulted enums) over the whole modelled schema; per object: conversion round trip, defaulting idempotence, list conversion, Create/Get/Update/UpdateStatus through the real hijack client over simapi; plus the slot-set / pause-flag codecs over all subsets of int32 extremes x annotation maps (nil, empty, others) and 2000 random int32 sets; distinct = distinct generated spec",
 		Assume: []string{"the five apps/v1 fields the Advanced type does not model (derived by reflection at run time and recorded in the evidence) are zeroed before the comparison", "metadata of the object written through the hijack client is limited to name/namespace/labels/annotations (the API server owns the rest)"},
-		Cases:  scenarioCases(1500, 40000), Run: runC19,
+		Cases:  scenarioCases(8000, 120000), Run: runC19,
 		Floors: []string{"round_trips", "defaulting_idempotence_checks", "hijack_create_get", "hijack_resubmits", "slot_codec_cases", "objects_with_empty_nonnil_collections"}})
 }
